@@ -8,7 +8,7 @@ ID = "C01"
 LEVEL = "exploration"
 FLAVORS = ["asan"]
 RULE = ("random cgroup trees (depth<=3, fan-out<=5, prefix-sharing names svc/svc1/svc10/svc-a, empty and populated cgroups, "
-        "0/1/19/20/21/45 pids, pid-0 lines), all five kill plugins x {single, multi, wildcard patterns} x recursive x kernelkill x "
+        "0/1/19/20/21/45 and 600-1300 pids (cgroup.procs longer than a page), pid-0 lines), all five kill plugins x {single, multi, wildcard patterns} x recursive x kernelkill x "
         "reap_memory x always_continue, scripted per-pid kill results (ok/ESRCH/EPERM), 2-4 tick histories with cgroups vanishing / "
         "appearing between ticks; every kill(2), setxattr(2), cgroup.kill/cgroup.freeze write and reap syscall of the real plugin "
         "is checked: SIGKILL only, pid>0, pid listed in the victim's subtree, victim eligible under the configured patterns, "
@@ -19,6 +19,14 @@ RULE = ("random cgroup trees (depth<=3, fan-out<=5, prefix-sharing names svc/svc
 ASSUMPTIONS = ["kill(2) is interposed and never reaches the kernel; a successful kill removes the pid from cgroup.procs at the next open",
                "pids are unique per scenario so every signal identifies its cgroup",
                "xattrs emulated by inode; tmpfs directories stand in for kernfs"]
+
+
+def pids_big(rng, n):
+    """n distinct pids far above the small ones the tree generator hands out, mixed widths"""
+    out = set()
+    while len(out) < n:
+        out.add(rng.choice([rng.randint(20000, 99999), rng.randint(100000, 999999), rng.randint(1000000, 4194303)]))
+    return sorted(out)
 
 
 def gen(rng, cid, tier, plugin=None, pid0=True):
@@ -37,6 +45,13 @@ def gen(rng, cid, tier, plugin=None, pid0=True):
             # several flat candidates whose processes all live in sub-cgroups
             KG.kernelkill_inner_nodes(rng, cgs, info, args)
             pats = [args["cgroup"]]
+    if rng.random() < 0.06 and not args.get("kernelkill"):
+        # a big cgroup: its cgroup.procs is longer than one page (and than stdio's buffer), pids of 5-7 digits
+        r = rng.choice([x for x in info if info[x]["pids"]] or list(info))
+        big = pids_big(rng, rng.randint(600, 1300))
+        info[r]["pids"] = info[r]["pids"] + big
+        cgs[r]["files"]["cgroup.procs"] += "".join("%d\n" % p for p in big)
+        cgs[r]["files"]["cgroup.events"] = "populated 1\nfrozen 0\n"
     allpids = [p for r in list(info) + list(info2) for p in (info.get(r) or info2.get(r))["pids"]]
     kill = {"default": "ok", "pids": {}}
     mode = rng.random()
